@@ -195,6 +195,11 @@ func (e *env) build(n Node) *fun.Iterator[int] {
 		calls := 0
 		return fun.Generator(func(context.Context) (int, error) {
 			if calls >= len(vals) {
+				if n.N%2 == 1 {
+					// a drained source may say so with an error that
+					// wraps io.EOF: the library tests with errors.Is
+					return 0, fmt.Errorf("generator drained: %w", io.EOF)
+				}
 				return 0, io.EOF
 			}
 			v := vals[calls]
@@ -365,6 +370,7 @@ func genNode(t *rapid.T, depth int, mayFail bool) Node {
 			}
 		case "generator":
 			n.Vals = genVals(t)
+			n.N = rapid.IntRange(0, 1).Draw(t, "wrappedEOF")
 			n.SkipAt = genAt(t, "skipAt", len(n.Vals))
 			if mayFail {
 				n.ErrAt = genAt(t, "errAt", len(n.Vals))
@@ -494,6 +500,16 @@ func runCase(t vkit.TB, c Case) (nontrivial bool, classes []string) {
 		wb, _ := json.Marshal(append([]int{}, want...))
 		if err != nil || string(b) != string(wb) {
 			fail(key, "MarshalJSON() = %s (%v), encoding/json of the specification gives %s", b, err, wb)
+		}
+		// the document belongs to the caller: producing further documents
+		// (with the same code, on the same goroutine) does not change it
+		_, _ = fun.SliceIterator([]int{77, 77, 77, 77, 77, 77, 77, 77, 77}).MarshalJSON()
+		ol := &dt.List[int]{}
+		ol.PushBack(88)
+		ol.PushBack(88)
+		_, _ = ol.MarshalJSON()
+		if string(b) != string(wb) {
+			fail(key, "the document MarshalJSON() returned changed from %s to %s when two other documents were marshalled afterwards", wb, b)
 		}
 	case "readone":
 		var got []int
